@@ -185,7 +185,7 @@ func c08CycleCLI() []c08CLI {
 		".jq":    hex.EncodeToString([]byte(`def z: 0;`)),
 	}
 	var out []c08CLI
-	for _, q := range []string{`include "cyc"; f`, `import "cyc" as c; c::f`, `import "p" as p; p::g`, `include "q"; h`, `import "s" as s; s::f`, `"cyc" | modulemeta`, `"p" | modulemeta | .deps`, `include "cyc"; include "p"; 1`} {
+	for _, q := range []string{`("missing", "p", "missing", "cyc") | try (modulemeta | .defs) catch "E"`, `[("nowhere", "p") | try modulemeta catch "E"] | length`, `include "cyc"; f`, `import "cyc" as c; c::f`, `import "p" as p; p::g`, `include "q"; h`, `import "s" as s; s::f`, `"cyc" | modulemeta`, `"p" | modulemeta | .deps`, `include "cyc"; include "p"; 1`} {
 		for _, pre := range [][]string{{"-n", "-L", "."}, {"-L", ".", "-n"}, {"-n", "-L.", "-c"}} {
 			out = append(out, c08CLI{Args: append(append([]string{}, pre...), q), Files: files})
 		}
